@@ -83,7 +83,7 @@ pub fn gen_case(rng: &mut Rng, fit_only: bool) -> Case {
 }
 
 pub fn encode(c: &Case) -> String {
-    let hdr = format!("BAR FX={} {} {} {} {} {} {} {}", std::env::var("VERIF_FX").unwrap_or_default(), c.w, c.h, c.hz, T0, c.tpl, c.len.map_or("none".into(), |l| l.to_string()), c.on_finish.enc());
+    let hdr = format!("BAR FX={} {} {} {} {} {} {} {}", crate::common::fx("draw"), c.w, c.h, c.hz, T0, c.tpl, c.len.map_or("none".into(), |l| l.to_string()), c.on_finish.enc());
     let mut s = hdr;
     for op in &c.ops { s.push_str(" ; "); s.push_str(&op.enc()); }
     s
